@@ -595,6 +595,33 @@ func ub(t *Term) uint64 {
 	return mask(t.W)
 }
 
+// lb returns a lower bound of the unsigned value of a BV term.
+func lb(t *Term) uint64 {
+	switch t.K {
+	case KConst:
+		return t.Val
+	case KConcat:
+		var v uint64
+		for _, p := range t.Args {
+			v = v<<uint(p.W) | lb(p)
+		}
+		return v
+	case KIte:
+		a, b := lb(t.Args[1]), lb(t.Args[2])
+		if a < b {
+			return a
+		}
+		return b
+	case KBOr:
+		a, b := lb(t.Args[0]), lb(t.Args[1])
+		if a > b {
+			return a
+		}
+		return b
+	}
+	return 0
+}
+
 // UB exposes the cheap upper bound analysis.
 func UB(t *Term) uint64 { return ub(t) }
 
@@ -612,6 +639,9 @@ func Ult(a, b *Term) *Term {
 		if ub(a) < b.Val {
 			return True
 		}
+		if lb(a) >= b.Val {
+			return False
+		}
 		if b.Val == 1 {
 			return Eq(a, Const(a.W, 0))
 		}
@@ -627,6 +657,9 @@ func Ult(a, b *Term) *Term {
 		}
 		if ub(b) <= a.Val {
 			return False
+		}
+		if lb(b) > a.Val {
+			return True
 		}
 		if a.Val == 0 {
 			return Not(Eq(b, Const(b.W, 0)))
